@@ -81,7 +81,7 @@ func refDigest(id ident) []byte {
 
 // refAccept is the reference predicate of the statement.
 func refAccept(id ident) bool {
-	if !id.ip.IsValid() || !id.ip.Is6() {
+	if !id.ip.IsValid() || !id.ip.Is6() || id.ip.Zone() != "" {
 		return false
 	}
 	b := id.ip.As16()
@@ -126,6 +126,12 @@ func deviations() []deviation {
 		add("ip", "ip="+s, func(id *ident) { id.ip = netip.MustParseAddr(s) })
 	}
 	add("ip", "ip=invalid", func(id *ident) { id.ip = netip.Addr{} })
+	// the right 16 bytes with an IPv6 zone attached: not an address of fd00::/8, and as a
+	// key of sessions and stored records different from the zone-less address.
+	for _, z := range []string{"eth0", "1"} {
+		z := z
+		add("ip", "ip-with-zone-"+z, func(id *ident) { id.ip = id.ip.WithZone(z) })
+	}
 	for _, h := range []crop.Hash{crop.SHA2_224, crop.SHA2_256, crop.SHA2_384, crop.SHA2_512, crop.SHA2_512_224, crop.SHA2_512_256,
 		crop.SHA3_224, crop.SHA3_256, crop.SHA3_384, crop.SHA3_512, crop.BLAKE2s_256, crop.BLAKE2b_256, crop.BLAKE2b_384, crop.BLAKE2b_512,
 		"", "blake3", "XYZ", crop.Hash(strings.Repeat("H", 300))} {
